@@ -685,13 +685,19 @@ func (ps *parseStream) one(raw string, prep, ansi bool, origin string, evalOK bo
 		o.Count("stmt:" + t)
 	}
 	o.NonTrivial("parse:" + mode + ":ok:" + strings.Join(types, ",") + ":" + sigOf(sres.kinds))
-	if len(r.stmts) != 1 {
+	for _, st := range r.stmts {
+		countClauses(o, st)
+	}
+	topQE := false
+	if len(r.stmts) == 1 {
+		_, topQE = r.stmts[0].(parser.QueryExpression)
+	}
+	if !topQE {
+		// statements without String(): their printable sub-trees (queries, value expressions) must survive print -> parse
+		ps.treeLaws(f, false)
 		return
 	}
-	q, ok := r.stmts[0].(parser.QueryExpression)
-	if !ok {
-		return
-	}
+	q := r.stmts[0].(parser.QueryExpression)
 	o.Count("fixpoint.checked")
 	if _, pn := safeString(q); pn != nil {
 		f.detail = fmt.Sprint("String() panics: ", pn)
@@ -708,6 +714,7 @@ func (ps *parseStream) one(raw string, prep, ansi bool, origin string, evalOK bo
 		return
 	}
 	o.Count("fixpoint.ok")
+	ps.treeLaws(f, false)
 	if a, b := tokenSeq(raw, prep, ansi), tokenSeq(printed, prep, ansi); a != b {
 		// counted only: a NUL character (read as end of input), a private-use rune whose code is a token number,
 		// or an empty quoted view name change the token sequence without breaking the fixpoint
@@ -730,6 +737,18 @@ func tokenSeq(text string, prep, ansi bool) string {
 		b.WriteString(kindName(t.Token) + ":" + strings.ToUpper(t.Literal) + " ")
 	}
 	return b.String()
+}
+
+// treeLaws: the tree laws of f.text; true when one failed.
+func (ps *parseStream) treeLaws(f failure, skipTop bool) bool {
+	hits := treeLawsOf(f.text, f.prep, f.ansi, skipTop)
+	ps.o.Count("tree.checked")
+	for _, h := range hits {
+		g := f
+		g.printed, g.detail = h.printed, h.detail
+		ps.fail(h.law, g)
+	}
+	return len(hits) > 0
 }
 
 func sigOf(kinds []string) string {
@@ -969,6 +988,14 @@ func (ps *parseStream) report() {
 			if strings.HasPrefix(law, "print_parse_fixpoint:") && law != "print_parse_fixpoint:print_panic" {
 				_, g.printed, g.detail = fixpointLaws(text, f.prep, f.ansi)
 			}
+			if law == "print_parse_tree_differs" || law == "distinct_trees_same_text" {
+				for _, h := range treeLawsOf(text, f.prep, f.ansi, false) {
+					if h.law == law {
+						g.printed, g.detail = h.printed, h.detail
+						break
+					}
+				}
+			}
 			if strings.HasPrefix(law, "print_parse_eval_agree:") {
 				_, g.printed, g.detail = ps.evalLaw(text, f.ansi)
 			}
@@ -1007,6 +1034,13 @@ func (ps *parseStream) hasLaw(text string, f failure, law string) bool {
 		ls, _, _ := fixpointLaws(text, f.prep, f.ansi)
 		for _, l := range ls {
 			if l == law {
+				return true
+			}
+		}
+		return false
+	case law == "print_parse_tree_differs" || law == "distinct_trees_same_text":
+		for _, h := range treeLawsOf(text, f.prep, f.ansi, false) {
+			if h.law == law {
 				return true
 			}
 		}
